@@ -144,6 +144,7 @@ var c10CopyExempt = map[string]string{}
 func c10(c *Ctx) {
 	c10HistorySkipCounter(c, "C10.4/history-skip-counter-starts-after-memory-versions")
 	c10ReaderRestart(c, "C10.7/reader-restart-resets-iteration-state")
+	c10SnapshotTime(c, "C10.9/snapshot-time-follows-its-root")
 	// prefix readers: a bound clamped to the prefix range is inclusive (analysis shared with C04.7)
 	c04ScanBounds(c, "C10.8/clamped-scan-bound-is-inclusive")
 	// ---- C10.1 copy-on-write -----------------------------------------------------------------------
@@ -738,5 +739,45 @@ func c10HistorySkipCounter(c *Ctx, r string) {
 	})
 	if n < 1 {
 		c.undecided(r, "floor", "the skip counter of the history-log walk was not recognised")
+	}
+}
+
+// c10SnapshotTime: a snapshot is built on a root handed to newSnapshot, which is not always the current root of the
+// tree (a recently dumped root is reused while it is fresh enough). The logical time given to the snapshot's own
+// writes, and everything that decides from Snapshot.Ts() whether anything happened since the snapshot was taken, must
+// describe THAT root: Snapshot.ts is derived from the root parameter, not from the tree's current root.
+func c10SnapshotTime(c *Ctx, r string) {
+	f := c.mustFn(r, "embedded/tbtree.(*TBtree).newSnapshot")
+	if f == nil {
+		return
+	}
+	var rootParam *ssa.Parameter
+	for _, p := range f.Params {
+		if n, ok := p.Type().(*types.Named); ok && n.Obj().Name() == "node" {
+			rootParam = p
+		}
+	}
+	sts := sites(f, storeTo("Snapshot.ts"))
+	if rootParam == nil || len(sts) == 0 {
+		c.undecided(r, fnName(f), "the root parameter or the store of Snapshot.ts was not found")
+		return
+	}
+	for i, in := range sts {
+		v := in.(*ssa.Store).Val
+		fromParam := dependsOn(v, func(x ssa.Value) bool { return x == ssa.Value(rootParam) })
+		fromTree := dependsOn(v, func(x ssa.Value) bool {
+			u, ok := x.(*ssa.UnOp)
+			if !ok || u.Op != token.MUL {
+				return false
+			}
+			fl, _ := fieldOf(u.X)
+			return fl == "TBtree.root"
+		})
+		c.check(fromParam && !fromTree, r, fmt.Sprintf("%s:Snapshot.ts#%d", fnName(f), i), c.pos(in.Pos()), "derived from the root the snapshot is built on",
+			"Snapshot.ts is "+desc(v)+": it does not describe the root the snapshot is built on; with a reused (older) root the snapshot claims the current time, and a transaction that wrote into it skips the validation of reads that are stale")
+	}
+	for i, in := range sites(f, storeTo("Snapshot.root")) {
+		v := in.(*ssa.Store).Val
+		c.check(v == ssa.Value(rootParam), r, fmt.Sprintf("%s:Snapshot.root#%d", fnName(f), i), c.pos(in.Pos()), "the root parameter", "Snapshot.root is "+desc(v)+" instead of the root handed to newSnapshot")
 	}
 }
